@@ -144,6 +144,11 @@ pub(crate) struct CoreInner {
 	/// Background error handler
 	pub(crate) error_handler: Arc<BackgroundErrorHandler>,
 
+	/// Held while a memtable is written to an SST. The background flush task, `Tree::flush()`,
+	/// checkpoints and shutdown all pick the oldest pending memtable: without it two of them
+	/// write the same table file at the same time.
+	flush_lock: parking_lot::Mutex<()>,
+
 	/// Visible sequence number - the highest sequence number that is visible to readers.
 	/// Shared with CommitPipeline for coordinated updates.
 	pub(crate) visible_seq_num: Arc<AtomicU64>,
@@ -214,6 +219,7 @@ impl CoreInner {
 			versioned_index,
 			lockfile: Mutex::new(lockfile),
 			error_handler: Arc::new(BackgroundErrorHandler::new()),
+			flush_lock: parking_lot::Mutex::new(()),
 			visible_seq_num,
 		})
 	}
@@ -454,6 +460,10 @@ impl CoreInner {
 	/// 2. Flushes it to SST via flush_immutable_to_sst (which also removes from queue)
 	/// 3. Schedules async WAL cleanup
 	fn flush_oldest_immutable_to_sst(&self) -> Result<Option<Arc<Table>>> {
+		// One flusher at a time: the entry picked below stays in the queue until its SST is
+		// installed, and a second flusher would pick it as well
+		let _flushing = self.flush_lock.lock();
+
 		// Get the oldest immutable entry (clone to release lock before I/O)
 		let entry = {
 			let guard = self.immutable_memtables.read()?;
@@ -576,6 +586,10 @@ impl CoreInner {
 		&self,
 		flushed_wal_number: Option<u64>,
 	) -> Result<Option<Arc<Table>>> {
+		// The swapped memtable is queued as immutable until it is flushed below: keep the
+		// background flush task from picking it in the meantime
+		let _flushing = self.flush_lock.lock();
+
 		// Step 1: Atomically swap active memtable with a new empty one
 		let mut active_memtable = self.active_memtable.write()?;
 
